@@ -93,8 +93,12 @@ CHECKS = {
          'tables generated from /repo), error marks incl. the split mark, '
          'get_txt_pos, phrase replacement (no new position), multi-language '
          'split incl. placeholders, the +1 of the wrapper '
-         '(C01_range_behind_expander). Not a theorem: that the expander '
-         'keeps token positions and extents inside the text; this premise is '
+         '(C01_range_behind_expander); end to end through the expander for '
+         'every document accepted by the decision procedure doc_in_class '
+         '(C01_range_documents_of_the_class: main loop and action-line pass '
+         'create no position). Not a theorem: that the expander '
+         'keeps token positions and extents inside the text for documents '
+         'outside that class; this premise is '
          'checked on every generated case by the oracle and the '
          'correspondence run',
     ref='6/C01, 11.2', technique='Coq proof (end-to-end length theorem, range '
@@ -258,9 +262,11 @@ CHECKS = {
          'the stream (sections together = text and positions of the stream: '
          'each word in exactly one part, same words as the single-language '
          'run), every part has equal lengths and only positions of the '
-         'stream, the split terminates without exception. Not a theorem: '
-         'that the label of a section is the language in force and the '
-         'threshold rule; decided by the nested-language generator oracle '
+         'stream, the split terminates without exception; the label for an '
+         'insertion in running text, a hard switch and an insertion in the '
+         'language in force; the threshold rule on three sections. Not a theorem: '
+         'the label under deeper nesting and the threshold rule on longer '
+         'section lists; decided by the nested-language generator oracle '
          'and the differential run',
     ref='6/C12, 11.2', technique='Coq proof (conservation, positions, totality) '
          '+ nested-language generator + differential run'),
